@@ -71,6 +71,18 @@ CLAIMED["C15"] = dict(
    text="Generated histories of print/log/rule/line/control/capture/export operations run on a recording console and on a twin with the same configuration; at every export the plain text export, the HTML export (tags removed, entities decoded) and the styled export (decoded) are compared with the visible text written to the file since the last clearing export, clear/no-clear semantics are checked by repeated exports, and capture blocks must leave the file untouched and return exactly what the twin wrote.",
    note="Record-vs-file comparison is suspended between a capture block and the next clearing export (captured text is also recorded in this version); log() uses log_path=False and a generated clock.",
    ref="5 C15")
+CLAIMED["C01"] = dict(
+   technique="Hypothesis property test over generated renderable trees and widths from the structural minimum; validity predicate = every rendered line measured with an independent cell-width oracle is <= W",
+   level="exploration",
+   text="Trees of all listed renderables (depth <= 4, every listed layout option, mixed-width content with newlines) are rendered with Console.render (no final crop) at widths biased to the structural minimum + {0..3}; each output line is measured by a linear-scan width table, not rich.cells.",
+   note="Free-to-wrap option space (no explicit widths, ratio >= 1); ProgressBar only inside line-based containers (known finding F3); structural minimum as defined in DESIGN section 3.",
+   ref="5 C01")
+CLAIMED["C09"] = dict(
+   technique="Hypothesis differential between Measurement.get and rendering at the measured minimum/maximum (independent width oracle) + exact word/line formulas for text",
+   level="exploration",
+   text="For generated trees and available widths 0..200 the measurement must satisfy 0 <= min <= max <= available, and rendering at the reported minimum and maximum (when at or above the structural minimum) must not produce a wider line; for tab-free text the minimum/maximum must equal the widest word/line and wrapping at the maximum must reproduce the newline-split lines.",
+   note="Same option domain as C01; measurement taken on a 200-cell console with explicit available width.",
+   ref="5 C09")
 NOT_YET = {}
 props = [json.loads(l) for l in open(os.path.join(V, "properties.jsonl"))]
 checks = []
